@@ -59,6 +59,8 @@ def table : List Entry := [
   ⟨"discover.serfNet.NumOfPeers|index|members[i]", "for:i < len(members)", .safe "index bounded by the enclosing loop condition / range"⟩,
   ⟨"discover.serfNet.NumOfPeers|index|members[i]#2", "for:i < len(members); and:members[i].Status == serf.StatusAlive", .safe "index bounded by the enclosing loop condition / range"⟩,
   ⟨"dkg.DistKeyGenerator.DistKeyShare|deref|deal.SecShare.V", "", .model "distKeyShare: every aggregator stores a deal whose share has a value (dkgRun_good, distKeyShare_total)"⟩,
+  ⟨"dkg.DistKeyGenerator.DistKeyShare|deref|pub.Add", "after:pub == nil", .safe "identifier the function compares with nil; that comparison dominates this use"⟩,
+  ⟨"dkg.DistKeyGenerator.DistKeyShare|deref|pub.Info", "", .safe "DistKeyShare returned above unless Certified, so qualIter visited at least one dealer and set pub"⟩,
   ⟨"dkg.DistKeyGenerator.DistKeyShare|ifacenil|deal.SecShare.V", "", .model "distKeyShare: every aggregator stores a deal whose share has a value (dkgRun_good, distKeyShare_total)"⟩,
   ⟨"dkg.DistKeyGenerator.ProcessDeal|deref|dd.Index", "", .safe "dd is the result of a comma-ok assertion on a message built by ptypes.UnmarshalAny: never a nil pointer"⟩,
   ⟨"dkg.DistKeyGenerator.ProcessDeal|mapwrite|d.verifiers[dd.Index]", "", .safe "map created by make in the same function or in the constructor"⟩,
@@ -74,6 +76,12 @@ def table : List Entry := [
   ⟨"dkg.findPub|index|list[i]", "after:i >= uint32(len(list))", .flag "findPubDkg"⟩,
   ⟨"dkg.genDistKeyGenerator|close|close(errc)", "", .safe "deferred close of a channel this stage created: executed once"⟩,
   ⟨"dkg.genDistKeyGenerator|close|close(out)", "", .safe "deferred close of a channel this stage created: executed once"⟩,
+  ⟨"dkg.genDistKeyGenerator|deref|pubkey.Index", "or:pubkey == nil || pubkey.Publickey == nil", .flag "gdkgGuard"⟩,
+  ⟨"dkg.genDistKeyGenerator|deref|pubkey.Index#2", "after:pubkey == nil || pubkey.Publickey == nil || pubkey.Index >= uint32(len(pubPoints))", .flag "gdkgGuard"⟩,
+  ⟨"dkg.genDistKeyGenerator|deref|pubkey.Index#3", "after:pubkey == nil || pubkey.Publickey == nil || pubkey.Index >= uint32(len(pubPoints))", .flag "gdkgGuard"⟩,
+  ⟨"dkg.genDistKeyGenerator|deref|pubkey.Index#4", "after:pubkey == nil || pubkey.Publickey == nil || pubkey.Index >= uint32(len(pubPoints))", .flag "gdkgGuard"⟩,
+  ⟨"dkg.genDistKeyGenerator|deref|pubkey.Publickey", "or:pubkey == nil", .flag "gdkgGuard"⟩,
+  ⟨"dkg.genDistKeyGenerator|deref|pubkey.Publickey#2", "after:pubkey == nil || pubkey.Publickey == nil || pubkey.Index >= uint32(len(pubPoints))", .flag "gdkgGuard"⟩,
   ⟨"dkg.genDistKeyGenerator|deref|pubkey.Publickey.Binary", "after:pubkey == nil || pubkey.Publickey == nil || pubkey.Index >= uint32(len(pubPoints))", .flag "gdkgGuard"⟩,
   ⟨"dkg.genDistKeyGenerator|index|pubPoints[pubkey.Index]", "after:pubkey == nil || pubkey.Publickey == nil || pubkey.Index >= uint32(len(pubPoints))", .flag "gdkgGuard"⟩,
   ⟨"dkg.genDistKeyGenerator|index|pubPoints[pubkey.Index]#2", "after:pubkey == nil || pubkey.Publickey == nil || pubkey.Index >= uint32(len(pubPoints)); after:pubPoints[pubkey.Index] != nil", .flag "gdkgGuard"⟩,
@@ -86,11 +94,13 @@ def table : List Entry := [
   ⟨"dkg.getAndProcessDeals|close|close(dkgOut)", "", .safe "deferred close of a channel this stage created: executed once"⟩,
   ⟨"dkg.getAndProcessDeals|close|close(errc)", "", .safe "deferred close of a channel this stage created: executed once"⟩,
   ⟨"dkg.getAndProcessDeals|close|close(out)", "", .safe "deferred close of a channel this stage created: executed once"⟩,
+  ⟨"dkg.getAndProcessDeals|deref|dkg.ProcessDeal", "after:dkg == nil", .flag "dealsDkgNil"⟩,
   ⟨"dkg.getAndProcessDeals|deref|dkg.ProcessDeal(deal)", "after:dkg == nil", .flag "dealsDkgNil"⟩,
   ⟨"dkg.getAndProcessDeals|deref|resp.Response.Status", "", .safe "ProcessDeal returns err == nil only with Response set to the non-nil result of ProcessEncryptedDeal"⟩,
   ⟨"dkg.getAndProcessDeals|typeassert|d.(*Deal)", "ok", .flag "dealsCast"⟩,
   ⟨"dkg.getAndProcessResponses|close|close(errc)", "", .safe "deferred close of a channel this stage created: executed once"⟩,
   ⟨"dkg.getAndProcessResponses|close|close(out)", "", .safe "deferred close of a channel this stage created: executed once"⟩,
+  ⟨"dkg.getAndProcessResponses|deref|dkg.ProcessResponse", "after:dkg == nil", .flag "respsDkgNil"⟩,
   ⟨"dkg.getAndProcessResponses|deref|dkg.ProcessResponse(resp)", "after:dkg == nil", .flag "respsDkgNil"⟩,
   ⟨"dkg.getAndProcessResponses|typeassert|r.(*Response)", "ok", .flag "respsCast"⟩,
   ⟨"dkg.handlePeerMsg|close|close(sessionReq[sessionID].reply)", "", .model "sessStep: a reply channel is closed when its entry is deleted, never twice (sess_total)"⟩,
@@ -160,6 +170,20 @@ def table : List Entry := [
   ⟨"dosnode.padOrTrim|slice|tmp[size-l:]", "after:l == size; after:l > size", .safe "l < size"⟩,
   ⟨"dosnode.recoverSign|close|close(errc)", "", .safe "deferred close of a channel this stage created: executed once"⟩,
   ⟨"dosnode.recoverSign|close|close(out)", "", .safe "deferred close of a channel this stage created: executed once"⟩,
+  ⟨"dosnode.recoverSign|deref|own.Content", "else:own == nil", .safe "else branch of `own == nil`"⟩,
+  ⟨"dosnode.recoverSign|deref|own.Index", "else:own == nil", .safe "else branch of `own == nil`"⟩,
+  ⟨"dosnode.recoverSign|deref|sign.Content", "or:sign == nil || sign.Signature == nil", .flag "rsNil"⟩,
+  ⟨"dosnode.recoverSign|deref|sign.Content#2", "after:sign == nil || sign.Signature == nil || sign.Content == nil", .flag "rsNil"⟩,
+  ⟨"dosnode.recoverSign|deref|sign.Content#3", "after:sign == nil || sign.Signature == nil || sign.Content == nil", .flag "rsNil"⟩,
+  ⟨"dosnode.recoverSign|deref|sign.Content#4", "after:sign == nil || sign.Signature == nil || sign.Content == nil", .flag "rsNil"⟩,
+  ⟨"dosnode.recoverSign|deref|sign.Content#5", "after:sign == nil || sign.Signature == nil || sign.Content == nil", .flag "rsNil"⟩,
+  ⟨"dosnode.recoverSign|deref|sign.Content#6", "after:sign == nil || sign.Signature == nil || sign.Content == nil", .flag "rsNil"⟩,
+  ⟨"dosnode.recoverSign|deref|sign.Index", "after:sign == nil || sign.Signature == nil || sign.Content == nil", .flag "rsNil"⟩,
+  ⟨"dosnode.recoverSign|deref|sign.Index#2", "after:sign == nil || sign.Signature == nil || sign.Content == nil", .flag "rsNil"⟩,
+  ⟨"dosnode.recoverSign|deref|sign.RequestId", "after:sign == nil || sign.Signature == nil || sign.Content == nil", .flag "rsNil"⟩,
+  ⟨"dosnode.recoverSign|deref|sign.Signature", "or:sign == nil", .flag "rsNil"⟩,
+  ⟨"dosnode.recoverSign|deref|sign.Signature#2", "after:sign == nil || sign.Signature == nil || sign.Content == nil", .flag "rsNil"⟩,
+  ⟨"dosnode.recoverSign|deref|sign.ToBigInt", "after:sign == nil || sign.Signature == nil || sign.Content == nil", .flag "rsNil"⟩,
   ⟨"dosnode.recoverSign|deref|sign.ToBigInt()", "after:sign == nil || sign.Signature == nil || sign.Content == nil", .flag "rsNil"⟩,
   ⟨"dosnode.recoverSign|make|make([]byte, t)", "after:sign == nil || sign.Signature == nil || sign.Content == nil; after:t < 0", .flag "rsMake"⟩,
   ⟨"dosnode.reportQueryResult|close|close(errc)", "", .safe "deferred close of a channel this stage created: executed once"⟩,
@@ -169,8 +193,10 @@ def table : List Entry := [
   ⟨"p2p.client.decryptPipe|callpanics|aesgcm.Open(nil, c.dhNonce, text, nil)", "", .safe "c.dhNonce = dhBytes[32:44] (12 bytes) is set together with the 32-byte c.dhKey; with no key aes.NewCipher fails first (ridLen)"⟩,
   ⟨"p2p.client.decryptPipe|close|close(out)", "", .safe "deferred close of a channel this stage created: executed once"⟩,
   ⟨"p2p.client.dispatch|close|close(out)", "", .safe "deferred close of a channel this stage created: executed once"⟩,
+  ⟨"p2p.client.dispatch|deref|p2pRequest.ctx", "in:p2pRequest != nil", .flag "dispReplyNil"⟩,
+  ⟨"p2p.client.dispatch|deref|p2pRequest.replyResult", "in:p2pRequest != nil", .flag "dispReplyNil"⟩,
   ⟨"p2p.client.dispatch|mapwrite|requests[nonce]", "", .safe "map created by make in the same function or in the constructor"⟩,
-  ⟨"p2p.client.dispatch|mapzero|requests[msg.RequestNonce]", "", .safe "nil-checked: `if p2pRequest != nil`"⟩,
+  ⟨"p2p.client.dispatch|mapzero|requests[msg.RequestNonce]", "", .safe "the nil result for an absent nonce is handled at its two uses (dispReplyNil)"⟩,
   ⟨"p2p.client.readPipe|close|close(out)", "", .safe "deferred close of a channel this stage created: executed once"⟩,
   ⟨"p2p.client.receiveID|close|close(errc)", "", .safe "deferred close of a channel this stage created: executed once"⟩,
   ⟨"p2p.client.receiveID|slice|dhBytes[0:32]", "after:len(dhBytes) < 44", .flag "ridLen"⟩,
@@ -190,6 +216,11 @@ def table : List Entry := [
   ⟨"p2p.server.messageDispatch|mapwrite|subscriptions[sub.msgType]", "", .safe "map created by make in the same function or in the constructor"⟩,
   ⟨"p2p.server.messageDispatch|mapzero|subscriptions[messagetype]", "", .safe "nil-checked: `out != nil`"⟩,
   ⟨"p2p.server.messageDispatch|slice|messagetype[1:]", "in:len(messagetype) > 0 && messagetype[0] == '*'", .safe "inside len(messagetype) > 0"⟩,
+  ⟨"p2p.server.receiveHandler|deref|c.close", "", .safe "c is the client handed over by the accept goroutine after a finished handshake (non-nil); the nil comparison in this function is about the shadowing c of the removal branch"⟩,
+  ⟨"p2p.server.receiveHandler|deref|c.remoteID", "", .safe "c is the client handed over by the accept goroutine after a finished handshake (non-nil); the nil comparison in this function is about the shadowing c of the removal branch"⟩,
+  ⟨"p2p.server.receiveHandler|deref|c.remoteID#2", "", .safe "c is the client handed over by the accept goroutine after a finished handshake (non-nil); the nil comparison in this function is about the shadowing c of the removal branch"⟩,
+  ⟨"p2p.server.receiveHandler|deref|client.close", "", .safe "client ranges over the values of clients, which are only stored non-nil"⟩,
+  ⟨"p2p.server.receiveHandler|deref|client.send", "after:client == nil", .safe "requests on n.replying are the node's own Reply calls; nil-checked all the same"⟩,
   ⟨"p2p.server.receiveHandler|mapwrite|clients[string(c.remoteID)]", "", .safe "map created by make in the same function or in the constructor"⟩,
   ⟨"p2p.server.receiveHandler|mapzero|clients[string(id)]", "", .safe "nil-checked"⟩,
   ⟨"p2p.server.receiveHandler|mapzero|clients[string(req.id)]", "", .safe "nil-checked"⟩,
@@ -209,6 +240,9 @@ def table : List Entry := [
   ⟨"share.PubPoly.Commit|index|p.commits[0]", "", .safe "the group polynomial sums the QUAL deals, which include the own deal with t ≥ 2 commitments; PubPoly.Add rejects different lengths"⟩,
   ⟨"share.PubPoly.Eval|index|p.commits[j]", "for:j >= 0", .safe "index bounded by the enclosing loop condition / range"⟩,
   ⟨"share.RecoverCommit|callpanics|num.Div(num, den)", "", .cross "tbls.Recover" "dup || i >= n" "recoverDedup"⟩,
+  ⟨"share.RecoverCommit|deref|s.I", "or:s == nil || s.V == nil", .safe "identifier the function compares with nil; that comparison dominates this use"⟩,
+  ⟨"share.RecoverCommit|deref|s.I#2", "or:s == nil || s.V == nil || s.I < 0", .safe "identifier the function compares with nil; that comparison dominates this use"⟩,
+  ⟨"share.RecoverCommit|deref|s.I#3", "after:s == nil || s.V == nil || s.I < 0 || n <= s.I", .safe "identifier the function compares with nil; that comparison dominates this use"⟩,
   ⟨"share.RecoverCommit|ifacenil|shares[i].V", "", .safe "entries with V == nil are not put into x"⟩,
   ⟨"share.RecoverCommit|index|shares[i]", "", .safe "i ranges over keys of x, which are positions of shares"⟩,
   ⟨"share.RecoverCommit|mapwrite|x[i]", "", .safe "map created by make in the same function or in the constructor"⟩,
@@ -231,6 +265,10 @@ def table : List Entry := [
   ⟨"vss.Verifier.ProcessEncryptedDeal|deref|d.SecShare.V", "or:d.SecShare == nil", .flag "secShareNil"⟩,
   ⟨"vss.Verifier.decryptDeal|callpanics|gcm.Open(nil, e.Nonce, e.Cipher, v.hkdfContext)", "after:len(e.Nonce) != gcm.NonceSize()", .flag "nonceLen"⟩,
   ⟨"vss.Verifier.decryptDeal|deref|e.DHKey", "after:e == nil", .flag "encNil"⟩,
+  ⟨"vss.aggregator.DealCertified|deref|a.EnoughApprovals", "after:a == nil", .safe "identifier the function compares with nil; that comparison dominates this use"⟩,
+  ⟨"vss.aggregator.DealCertified|deref|a.badDealer", "after:a == nil", .safe "identifier the function compares with nil; that comparison dominates this use"⟩,
+  ⟨"vss.aggregator.DealCertified|deref|a.responses", "after:a == nil", .safe "identifier the function compares with nil; that comparison dominates this use"⟩,
+  ⟨"vss.aggregator.DealCertified|deref|a.verifiers", "after:a == nil", .safe "identifier the function compares with nil; that comparison dominates this use"⟩,
   ⟨"vss.aggregator.VerifyDeal|deref|d.SecShare", "or:d == nil", .flag "shareVNil"⟩,
   ⟨"vss.aggregator.VerifyDeal|deref|d.SecShare.V", "or:d == nil || d.SecShare == nil", .flag "shareVNil"⟩,
   ⟨"vss.aggregator.VerifyDeal|ifacenil|fi.V", "after:d == nil || d.SecShare == nil || d.SecShare.V == nil", .flag "shareVNil"⟩,
@@ -283,7 +321,7 @@ def Cfg.current : Cfg :=
     qloopOk := flagOn "qloopOk", qloopCast := flagOn "qloopCast", rsNil := flagOn "rsNil", rsMake := flagOn "rsMake",
     groupInfoIds := flagOn "groupInfoIds", byte32Len := flagOn "byte32Len", crRand := flagOn "crRand",
     sigIdxLen := flagOn "sigIdxLen", recoverDedup := flagOn "recoverDedup", anyNil := flagOn "anyNil",
-    ridCast := flagOn "ridCast", ridLen := flagOn "ridLen", readSize := flagOn "readSize", mdNil := flagOn "mdNil",
+    ridCast := flagOn "ridCast", ridLen := flagOn "ridLen", readSize := flagOn "readSize", mdNil := flagOn "mdNil", dispReplyNil := flagOn "dispReplyNil",
     listenName := flagOn "listenName", listenCast := flagOn "listenCast", lookupName := flagOn "lookupName" }
 
 /-- inventory differences, for diagnostics (driver op `inv`): new / vanished / re-guarded sites -/
